@@ -1190,7 +1190,9 @@ class Engine:
             fn = self.fx.fns[target]
             if fn["kind"] != "closure":
                 return False
-            if self.own_closures_only and self.top_root is not None and self.fx.root_fn(target) != self.top_root:
+            if self.own_closures_only and self.top_root is not None and self.fx.root_fn(target) != self.top_root \
+                    and self.fx.root_fn(target) not in getattr(self.fx, "new_helpers", ()):
+                # (the coroutine of an async helper that a refactoring introduced is part of its caller's body)
                 return False
         return True
 
@@ -1220,6 +1222,9 @@ class Engine:
             st.store[root] = v
         for s2, kind, ret, rsite in self.run(frame, 0, st, depth + 1):
             if kind == "return":
+                if fn.get("coroutine"):
+                    # the body of an (async) coroutine polled by its awaiter: completing is `Poll::Ready(value)`
+                    ret = ("agg", "std::task::Poll", "Ready", (("0", ret),))
                 yield s2, ret
             elif kind == "panic":
                 s2.events.append(("panic-in-callee", target, rsite))
@@ -1480,6 +1485,33 @@ def s_option_context(eng, frame, st, args, fj, depth, site):
             yield s2, ("agg", RES, "Err", (("0", ("call", "anyhow::Error::msg", (), None)),))
 
 
+def s_result_context(eng, frame, st, args, fj, depth, site):
+    # anyhow::Context for Result<T, E>: Ok(x) -> Ok(x), Err(e) -> Err(e.context(msg))
+    RES = "std::result::Result"
+    v = args[0]
+    if v[0] == "ptr":
+        v = eng.read_rp(st, v[1], v[2])
+    if v[0] == "agg" and v[2] == "Ok":
+        yield st, v
+        return
+    if v[0] == "agg" and v[2] == "Err":
+        yield st, ("agg", RES, "Err", (("0", ("call", "anyhow::Error::context", (proj(v, ("f", RES, "0")),), None)),))
+        return
+    for c in st.cond:
+        if c[0] == "variant" and c[1] == v and c[3] and c[2] in ("Ok", "Err"):
+            if c[2] == "Ok":
+                yield st, ("agg", RES, "Ok", (("0", proj(proj(v, ("v", "Ok")), ("f", RES, "0"))),))
+            else:
+                yield st, ("agg", RES, "Err", (("0", ("call", "anyhow::Error::context", (proj(proj(v, ("v", "Err")), ("f", RES, "0")),), None)),))
+            return
+    s1 = st.fork()
+    s1.cond.append(("variant", v, "Ok", True))
+    yield s1, ("agg", RES, "Ok", (("0", proj(proj(v, ("v", "Ok")), ("f", RES, "0"))),))
+    s2 = st.fork()
+    s2.cond.append(("variant", v, "Err", True))
+    yield s2, ("agg", RES, "Err", (("0", ("call", "anyhow::Error::context", (proj(proj(v, ("v", "Err")), ("f", RES, "0")),), None)),))
+
+
 def s_option_unwrap(eng, frame, st, args, fj, depth, site):
     for s2, tag, payload in split_option(eng, st, args[0]):
         if tag == "Some":
@@ -1631,6 +1663,8 @@ DEFAULT_SUMMARIES = {
     "std::option::Option::cloned": s_option_copied,
     "std::option::Option::unwrap": s_option_unwrap,
     "std::option::Option::and_then": s_option_and_then,
+    "anyhow::context::<impl anyhow::Context<T, E> for std::result::Result<T, E>>::context": s_result_context,
+    "anyhow::context::<impl anyhow::Context<T, E> for std::result::Result<T, E>>::with_context": s_result_context,
     "anyhow::context::<impl anyhow::Context<T, std::convert::Infallible> for std::option::Option<T>>::context": s_option_context,
     "anyhow::context::<impl anyhow::Context<T, std::convert::Infallible> for std::option::Option<T>>::with_context": s_option_context,
     "std::time::Duration::div_f32": s_div_f32,
